@@ -72,9 +72,10 @@ func (m *Mux) NewEndpoint(matchFunc MatchFunc) *Endpoint {
 
 	m.lock.Lock()
 	m.endpoints[endpoint] = matchFunc
+	// Flush the queued packets before releasing the lock, so that no packet
+	// dispatched after the endpoint became visible can overtake them.
+	m.handlePendingPackets(endpoint, matchFunc)
 	m.lock.Unlock()
-
-	go m.handlePendingPackets(endpoint, matchFunc)
 
 	return endpoint
 }
@@ -198,10 +199,8 @@ func (m *Mux) dispatch(buf []byte) error {
 	return err
 }
 
+// handlePendingPackets must be called with m.lock held.
 func (m *Mux) handlePendingPackets(endpoint *Endpoint, matchFunc MatchFunc) {
-	m.lock.Lock()
-	defer m.lock.Unlock()
-
 	pendingPackets := make([][]byte, 0, len(m.pendingPackets))
 	for _, buf := range m.pendingPackets {
 		if matchFunc(buf) {
